@@ -26,7 +26,7 @@ func init() { kit.Register("C03.real", runReal) }
 // sizes; every commit the voter announces is packed the way Server.commit packs it and the
 // resulting header is offered to the REAL header verifier.
 func runReal(c *kit.Ctx) {
-	n := c.N(96, 6000)
+	n := c.N(96, 2400)
 	for i := 0; i < n; i++ {
 		id := fmt.Sprintf("real%d", i)
 		if !c.Mine(i, id) {
